@@ -5,13 +5,15 @@ CONSTANTS
   QCaps = {1}
   Kinds = {"single"}
   MaxCredit = 0
-  MaxTick = 2
+  MaxTick = 0
   NP = 1
   Limit = 2
-  MaxFail = 3
-  MaxAbort = 3
+  MaxAErr = 1
+  MaxFail = 2
+  MaxAbort = 2
 SPECIFICATION SpecConn
 INVARIANT NumConnsExact
+INVARIANT AcceptLoopAlive
 INVARIANT Framed
 PROPERTY RefusedOnlyAtLimit
 PROPERTY OthersUnaffected
